@@ -132,7 +132,11 @@ def run_session(job):
                 def view(args, ref):
                     if os.path.exists(o):
                         os.unlink(o)
-                    r = run_cli(["view", F, "-o", o] + args, timeout=10)
+                    r = run_cli(["view", F, "-o", o] + args, timeout=1.5)
+                    if r["status"] == "timeout":  # a loaded machine must not look like non-termination: ask again, patiently
+                        if os.path.exists(o):
+                            os.unlink(o)
+                        r = run_cli(["view", F, "-o", o] + args, timeout=8)
                     txt = open(o).read() if os.path.exists(o) else ""
                     return r["status"], positions(txt, ref or [])
 
@@ -162,12 +166,20 @@ def run_session(job):
                     regs = [{"ctg": g, "a": a, "b": b} for g in ctgs for a in range(clen[g]) for b in range(a, clen[g])]
                     qs = []
                     ntimeouts = 0
-                    for g in regs:
+                    flagdir = opts.get("flagdir")
+                    regs_to_run = regs
+                    if flagdir and len(os.listdir(flagdir)) >= 6:
+                        # non-termination has been established on six other sessions already; do not wait for more
+                        c["truncated"] = True
+                        regs_to_run = []
+                    for g in regs_to_run:
                         stt, pos = view(["-r", f"{g['ctg']}:{g['a']}-{g['b']}"], lines)
                         qs.append({"regs": [g], "fmt": "", "status": stt, "pos": pos})
                         ntimeouts += stt == "timeout"
                         if ntimeouts >= 2:  # non-termination is already a verdict; do not wait for the rest
                             c["truncated"] = True
+                            if flagdir:
+                                open(os.path.join(flagdir, f"{sid}_{fmt}"), "w").close()
                             break
                     for _ in range(0 if c.get("truncated") else opts.get("pairs", 8)):
                         pr = [rnd.choice(regs), rnd.choice(regs)]
@@ -192,6 +204,8 @@ def run_session(job):
 def run_mode(ctx, mode):
     cfgs = ["ViewIndex_t.cfg"] if ctx.thorough else ["ViewIndex_q.cfg", "ViewIndex_q2.cfg"]
     jobs = []
+    flagdir = os.path.join(ctx.scratch, "timeouts")
+    os.makedirs(flagdir, exist_ok=True)
     for cfg in cfgs:
         states, r = gen_states(ctx, "ViewIndex", cfg, coverage=False)
         k = 0
@@ -200,7 +214,7 @@ def run_mode(ctx, mode):
                 continue
             k += 1
             sid = f"{cfg[10:-4]}-{k}"
-            jobs.append((sid, st, mode, "bgzf" if k % 2 else "plain", k % 3 == 0, ctx.seed * 7919 + k, {}))
+            jobs.append((sid, st, mode, "bgzf" if k % 2 else "plain", k % 3 == 0, ctx.seed * 7919 + k, {"flagdir": flagdir}))
     if ctx.thorough and len(jobs) > 6000:
         rnd = random.Random(ctx.seed)
         jobs = rnd.sample(jobs, 6000)
